@@ -21,6 +21,7 @@ IDENT = {
     "quiescent": "C18 after a successful pass the target differs from the render of the current sources",
     "enqueue": "C18 a change of a watched, labelled source object does not enqueue the ObjectTemplate",
 }
+# identity of the former finding F-C18 (fixed by aa47ee3); a recurrence is reported under the same string
 ID_ROOTOWN = ("C18 namespaced ObjectTemplate: a cluster-scoped source or target named with the template's own namespace "
               "passes the namespace check (source is read and label-patched, target is not reported through Invalid)")
 
@@ -45,7 +46,8 @@ def c_data(d):
 
 
 def c_cond(c):
-    return "{| c_type := %s; c_status := %s; c_obsgen := %s |}" % (n(c["type"]), n(c["status"]), n(c["obsgen"]))
+    return "{| c_type := %s; c_status := %s; c_obsgen := %s; c_ok := %s |}" % (
+        n(c["type"]), n(c["status"]), n(c["obsgen"]), cB(not c.get("bare", False)))
 
 
 def c_obj(o):
@@ -198,9 +200,9 @@ def corpus():
     out = [
         # create, source edit, re-render, source deleted, template deleted
         scen(1, T(1, [S(1, 0, 1)], code()), [cm1], [P, put((1, 1, 1), [(1, 6)]), P, {"op": "del", "key": [1, 1, 1]}, P, {"op": "tdel"}, P]),
-        # WITNESS of the finding: cluster-scoped source named with the template's own namespace
+        # former witness of F-C18 (fixed by aa47ee3): cluster-scoped source named with the template's own namespace; must be rejected
         scen(1, T(1, [S(3, 1, 1)], code()), [O((3, 0, 1), [(1, 7)])], [P, P]),
-        # WITNESS, target side: cluster-scoped target rendered with the template's own namespace
+        # former witness, target side: cluster-scoped target rendered with the template's own namespace; must be reported through Invalid
         scen(1, T(1, [S(1, 0, 1)], code(kind=3, ns=1)), [cm1], [P]),
         # source in another namespace; cluster-scoped source without namespace; unregistered source
         scen(1, T(1, [S(1, 2, 1)], code()), [O((1, 2, 1), [(1, 5)])], [P]),
@@ -233,6 +235,14 @@ def corpus():
         scen(1, T(1, [S(1, 0, 1)], code()), [cm1, O((1, 1, 100), [(1, 1)], label=True, ctrl=2)], [P]),
         scen(1, T(1, [S(1, 0, 1)], code(), gen=3), [cm1, O((1, 1, 100), [(1, 5)], label=True, ctrl=1, gen=2, sobs=3,
              conds=[{"type": 1, "status": 1, "obsgen": 2}, {"type": 2, "status": 0, "obsgen": 1}])], [P, P]),
+        # empty destination in a source item (was a panic before a818a7e): SourceError
+        scen(1, T(1, [S(1, 0, 1, items=((1, 0),))], code()), [cm1], [P, P]),
+        scen(1, T(1, [S(1, 0, 1, items=((1, 1), (1, 0)))], code()), [cm1], [P]),
+        # malformed condition on the existing target (was a panic before a818a7e): plain error; outdated malformed one: ignored
+        scen(1, T(1, [S(1, 0, 1)], code()), [cm1, O((1, 1, 100), [(1, 5)], label=True, ctrl=1, gen=1,
+             conds=[{"type": 1, "status": 1, "obsgen": 1, "bare": True}])], [P, {"op": "poke", "key": [1, 1, 100], "sobs": None, "conds": []}, P]),
+        scen(1, T(1, [S(1, 0, 1)], code()), [cm1, O((1, 1, 100), [(1, 5)], label=True, ctrl=1, gen=2,
+             conds=[{"type": 1, "status": 1, "obsgen": 1, "bare": True}, {"type": 2, "status": 0, "obsgen": 2}])], [P]),
         # deletion with other owners watching, and a second deletion pass
         scen(1, T(1, [S(1, 0, 1)], code(), fin=True, **{"del": True}), [cm1], [P, P], watch=[(1, 1), (1, 2), (2, 1)]),
         # template edit changes sources and target
@@ -285,7 +295,7 @@ def gen(seed, tier):
             ns = r.choice([0] * 8 + [1, 2]) if kind != 3 else r.choice([0, 1, 1, 2])
         else:
             ns = r.choice([1] * 5 + [2, 2, 0]) if kind != 3 else r.choice([0, 0, 0, 1])
-        items = [[r.randint(1, 3), r.randint(1, 4)] for _ in range(r.choice([1, 1, 2]))]
+        items = [[r.randint(1, 3), r.randint(1, 4) if r.random() < 0.97 else 0] for _ in range(r.choice([1, 1, 2]))]
         return {"kind": kind, "ns": ns, "name": r.randint(1, 3), "opt": r.random() < 0.4, "items": items}
 
     def mk_code(tns):
@@ -330,7 +340,8 @@ def gen(seed, tier):
         tk = tgt_key(tns, c)
         if valid_key(tk) and tuple(tk) not in seen and r.random() < 0.2:
             seen.add(tuple(tk))
-            conds = [{"type": r.randint(1, 2), "status": r.randint(0, 1), "obsgen": r.randint(1, 2)} for _ in range(r.choice([0, 1, 2]))]
+            conds = [{"type": r.randint(1, 2), "status": r.randint(0, 1), "obsgen": r.randint(1, 2), "bare": r.random() < 0.15}
+                     for _ in range(r.choice([0, 1, 2]))]
             store.append(O(tk, data(), label=r.random() < 0.7, ctrl=r.choice([0, 1, 1, 2]), gen=r.randint(1, 2),
                            sobs=r.choice([None, 1, 2]), conds=conds))
         tm = T(tns, srcs, c)
@@ -374,7 +385,8 @@ def gen(seed, tier):
                 steps.append({"op": "env", "env": r.randint(1, 9)})
             else:
                 if valid_key(tk):
-                    conds = [{"type": r.randint(1, 2), "status": r.randint(0, 1), "obsgen": r.randint(1, 3)} for _ in range(r.choice([1, 1, 2]))]
+                    conds = [{"type": r.randint(1, 2), "status": r.randint(0, 1), "obsgen": r.randint(1, 3), "bare": r.random() < 0.15}
+                             for _ in range(r.choice([1, 1, 2]))]
                     steps.append({"op": "poke", "key": tk, "sobs": r.choice([None, None, 1, 2]), "conds": conds})
                 else:
                     steps.append(dict(P))
@@ -386,7 +398,7 @@ def gen(seed, tier):
 
 
 def rootown_shape(sc):
-    """Does the scenario contain the shape of the known finding?"""
+    """Does the scenario contain the shape of the former finding F-C18 (cluster-scoped kind named with the template's namespace)?"""
     if sc["tns"] == 0:
         return False
     specs = [(sc["tmpl"]["sources"], sc["tmpl"]["code"])] if sc["tmpl"] else []
@@ -453,7 +465,7 @@ def check(run, tier, seed, replay=None):
         except Unrep as e:
             run.violation("corr:C18/observation outside the model's language: %s" % e,
                           {"correspondence": "C18Corr case language", "scenario": sc, "impl": o["obs"]}, False)
-    arity = 1 + 2 * len(CLAUSES)
+    arity = 1 + len(CLAUSES)
     res, logs = vlib.judge_cases("C18", IMPORTS, "judge", terms, arity, shard=100)
     for l in logs:
         run.violation("corr:C18/coq-eval", {"correspondence": "coq evaluation failed", "log": l}, False)
@@ -467,26 +479,25 @@ def check(run, tier, seed, replay=None):
         passes += sum(1 for s in obs["steps"] if s["kind"] == "pass")
         if len(sc["steps"]) >= 2:
             run.classes.add(classify(sc, obs))
-        agree, guarded, strict = r[0], r[1:1 + len(CLAUSES)], r[1 + len(CLAUSES):]
-        bad = [c for c, g in zip(CLAUSES, guarded) if not g]
-        if bad:
+        agree, clauses = r[0], r[1:]
+        bad = [c for c, g in zip(CLAUSES, clauses) if not g]
+        if rootown_shape(sc):
+            rootown_seen += 1
+        if bad and rootown_shape(sc) and set(bad) <= {"nsbound", "render", "quiescent"}:
+            # the shape of the former finding F-C18 fails again: report the recurrence under its old identity
+            run.violation(ID_ROOTOWN, slim(sc, obs), True)
+        else:
             for c in bad:
                 run.violation(IDENT[c], slim(sc, obs), True)
-        elif not all(strict):
-            rootown_seen += 1
-            if rootown_shape(sc):
-                run.violation(ID_ROOTOWN, slim(sc, obs), True)
-            else:
-                run.violation("corr:C18/strict monitor fails outside the known shape", slim(sc, obs), False)
         if not agree:
             d = dict(slim(sc, obs), correspondence="C18Corr.agree")
             if len(run.violations) < 3:
                 d["diagnose"] = vlib.coq_show("C18", IMPORTS, "diagnose (%s)" % terms[idx.index(i)])[-1500:]
             run.violation("corr:C18/template model and implementation differ", d, False)
     run.cov["passes"] = passes
-    run.cov["histories_with_known_shape"] = rootown_seen
+    run.cov["histories_with_former_finding_shape"] = rootown_seen
     run.cov["rule"] = (
-        "fixed corpus (one witness per clause, both shapes of the known finding) first, then the exhaustive one-source / one-target "
+        "fixed corpus (one witness per clause, both shapes of the former finding F-C18, which must pass now) first, then the exhaustive one-source / one-target "
         "reference table (template scope x source kind x source namespace x absent/unlabelled/labelled x optional, and template "
         "scope x target kind x rendered namespace x owner references; thorough: their full product), then seeded random histories: namespaced "
         "(3/4) or cluster-scoped template, 0-3 sources (ConfigMap / Secret / cluster-scoped kind / unregistered kind; namespace "
@@ -494,6 +505,6 @@ def check(run, tier, seed, replay=None):
         "owner references, arbitrary initial template state (finalizer, Invalid condition, conditions, controllerOf, deleting), "
         "pre-existing targets and cache owners, 1-8 steps of source create/edit/delete, target status writes, template edit, "
         "template delete, environment change and controller passes; one evaluation = one history judged in Coq (agreement of "
-        "every step + 9 monitor clauses, guarded and strict); non-trivial = at least two steps; distinct = (scope, per step: "
+        "every step + 9 monitor clauses); non-trivial = at least two steps; distinct = (scope, per step: "
         "write/cache events with results, requeue, error class, Invalid | enqueued)")
     run.cov["samples"] = [slim(scs[i], outs[i]["obs"]) for i in idx[:2]]
